@@ -158,7 +158,7 @@ def parseOps (cx : TreeCtx) (s : String) : Option (List (Op Float)) :=
 def parseVecs (s : String) : Option (Array (Array Float)) :=
   if s = "-" then some #[] else ((s.splitOn ";").mapM fun t => (parseList parseBits t).map (·.toArray)).map (·.toArray)
 
-/-- `pso kind=pso|bcast|red|proj|projadj mode=oop|ip|alias m=M nc=N n=LEN idx=I entries=r~c~TOKENS@…
+/-- `pso kind=pso|bcast|red|diag|proj|projl|projadj|bcastw|redw|diagw mode=oop|ip|alias m=M nc=N n=LEN idx=I entries=r~c~TOKENS@…
 x=v;v;… y=v;v;… <tree context keys>` : the product-space classes. Input components are the
 buffers `0 … nc-1`, output components `nc … nc+m-1` (`alias`: the input components). Answers
 `ok vals=v;v;… x=v;v;…`. -/
@@ -185,6 +185,10 @@ def doPso (l : Line) : Option String := do
   let entries ← l.get? "entries" >>= parseEntries cx
   -- round 4: kind=bcastw|redw|diagw get the OPERAND list; blocks and wrapping come from the model
   let ops ← parseOps cx ((l.get? "ops").getD "-")
+  -- round 4: kind=projl, ComponentProjection with the LIST index idxs=i,j,…
+  let idxs ← match l.get? "idxs" with
+    | none => some []
+    | some t => (t.splitOn ",").mapM String.toNat?
   let s0 : St Float := {
     mem := fun b => if b < nc then vecOf (xs.getD b #[]) else
                     if b < nc + m then vecOf (ys.getD (b - nc) #[]) else fun _ => nanF,
@@ -201,6 +205,8 @@ def doPso (l : Line) : Option String := do
   | "proj", "ip" => finish (compProjI idx x nc s0) (fun _ => nc) 1
   | "projadj", "oop" => finish (compProjAdjO m idx 0 s0) (fun i => s0.next + i) m
   | "projadj", "ip" => finish (compProjAdjI m idx 0 yIP s0) yIP m
+  | "projl", "oop" => finish (compProjListO idxs x s0) (fun k => s0.next + k) idxs.length
+  | "projl", "ip" => finish (compProjListI idxs 0 x yIP s0) yIP idxs.length
   | "bcastw", "oop" =>
       match broadcastO jk ops 0 s0 with
       | .err e _ => some (showErr e)
